@@ -38,13 +38,13 @@ Definition distinct_rates (ch : chain) (phi1 phi s1 s2 T Tp : R) : Prop :=
 (* every row of the table, every physical input: the chain solution the tie compares with is >= 0,
    and so is the model's activity on every branch but the small-argument one *)
 Theorem activity_nonneg : forall rows, the_rows = Some rows -> forall r, In r rows ->
-  forall mass env t br a m lam spec, physical mass env t ->
-  activity_row r (r_A r) mass env t = OAct br a m lam spec ->
+  forall sb mass env t br a m lam spec, physical mass env t ->
+  activity_row_with sb r (r_A r) mass env t = OAct br a m lam spec ->
   distinct_rates (chain_of br) (Q2R (row_flux r env)) (Q2R (fluence env)) (Q2R (row_xs r env)) (Q2R (row_xs2 r env))
                  (Q2R (r_thalf r)) (Q2R (r_thalf_par r)) ->
   0 <= evalR no_env_R spec /\ (br <> BSmall -> 0 <= evalR no_env_R a).
 Proof.
-  intros rows E r Hin mass env t br a m lam spec (Hm & Hf & Hfr & Ht) H Hd.
+  intros rows E r Hin sb mass env t br a m lam spec (Hm & Hf & Hfr & Ht) H Hd.
   pose proof (rows_all_ok rows E r Hin) as Hok. unfold row_ok in Hok.
   repeat (apply andb_prop in Hok; destruct Hok as [Hok ?]).
   assert (HA : 0 < IZR (r_A r)) by (apply IZR_lt; apply Z.ltb_lt; assumption).
@@ -65,13 +65,13 @@ Proof.
     - rewrite Q2R_div by assumption.
       assert (Q2R (fast_ratio env) <> 0) by (intro Z'; apply Z; apply eqR_Qeq; rewrite Z', Q2R_0; reflexivity).
       apply Rmult_le_pos; [assumption|]. left. apply Rinv_0_lt_compat. lra. }
-  destruct (model_spec_is_chain_solution _ _ _ _ _ _ _ _ _ _ H) as [Hs _].
+  destruct (model_spec_is_chain_solution _ _ _ _ _ _ _ _ _ _ _ H) as [Hs _].
   assert (Hspec : 0 <= evalR no_env_R spec).
   { rewrite Hs. apply activity_end_nonneg; try assumption.
     destruct br; simpl in *; try assumption.
     - (* b: the row is a 'b' row, so its parent half-life is positive and differs *)
       assert (Hb : is_b r = true).
-      { unfold activity_row in H. cbv zeta in H.
+      { unfold activity_row_with in H. cbv zeta in H.
         repeat (match type of H with
         | context [if ?b then _ else _] => destruct b eqn:?
         | context [match lin_ln2_neg ?a ?b with _ => _ end] => destruct (lin_ln2_neg a b) as [[|]|] eqn:?
@@ -83,7 +83,7 @@ Proof.
       match goal with Hn : negb _ = true |- _ => rewrite Ed in Hn; discriminate Hn end.
     - (* 2n *)
       assert (Hb : is_2n r = true /\ is_b r = false).
-      { unfold activity_row in H. cbv zeta in H.
+      { unfold activity_row_with in H. cbv zeta in H.
         repeat (match type of H with
         | context [if ?b then _ else _] => destruct b eqn:?
         | context [match lin_ln2_neg ?a ?b with _ => _ end] => destruct (lin_ln2_neg a b) as [[|]|] eqn:?
@@ -92,7 +92,7 @@ Proof.
       assert (HTp : 0 < Q2R (r_thalf_par r)) by (rewrite <- Q2R_0; apply Qlt_bool_R; assumption).
       tauto. }
   split; [assumption|].
-  intro Hns. rewrite (model_refines_spec _ _ _ _ _ _ _ _ _ _ H Hns); [assumption|].
+  intro Hns. rewrite (model_refines_spec _ _ _ _ _ _ _ _ _ _ _ H Hns); [assumption|].
   intro Eb. subst br. simpl in Hd. lra.
 Qed.
 
@@ -101,7 +101,7 @@ Qed.
    of its reaction chain" on every branch of the model.  It fails on the small-argument branch. *)
 Definition w_row : arow :=
   mkRow 4 9 "Be-9" "Be-10" "act" false 100 (76 # 10000) (4 # 1000) 14016000000 0 0 0 "1600000 y".
-Definition w_out : outcome := activity_row w_row 9 1 (mkEnv 100000 0 0) 1.
+Definition w_out : outcome := activity_row_with true w_row 9 1 (mkEnv 100000 0 0) 1.
 Definition w_a : expr := match w_out with OAct _ a _ _ _ => a | _ => c 0 end.
 Definition w_spec : expr := match w_out with OAct _ _ _ _ s => s | _ => c 0 end.
 
@@ -110,7 +110,7 @@ Definition w_spec : expr := match w_out with OAct _ _ _ _ s => s | _ => c 0 end.
 Theorem small_branch_refuted :
   exists r amass mass env t a m lam spec,
     physical mass env t /\
-    activity_row r amass mass env t = OAct BSmall a m lam spec /\
+    activity_row_with true r amass mass env t = OAct BSmall a m lam spec /\
     0 < evalR no_env_R spec /\
     evalR no_env_R a > (149 / 100) * evalR no_env_R spec.
 Proof.
@@ -124,7 +124,7 @@ Proof.
     assert (Es : sign_of w_spec = SPos) by (vm_compute; reflexivity). rewrite Es in S. exact S.
   - pose proof (sign_of_sound (ESub w_a (EMul (c (149 # 100)) w_spec))) as S.
     assert (Es : sign_of (ESub w_a (EMul (c (149 # 100)) w_spec)) = SPos) by (vm_compute; reflexivity).
-    rewrite Es in S. simpl in S. cbn [evalR c] in S.
+    rewrite Es in S. unfold sgn_means in S. cbn [evalR c] in S.
     replace (Q2R (149 # 100)) with (149 / 100) in S by (unfold Q2R; simpl; field). lra.
 Qed.
 
@@ -134,7 +134,7 @@ Qed.
 Definition w2_row : arow :=
   mkRow 6 13 "C-13" "C-14" "act" false (111 # 100) (137 # 100000) (17 # 10000) 50247360 0 0 0 "5736 y".
 Theorem small_branch_raises_refuted :
-  exists r amass mass env t, physical mass env t /\ activity_row r amass mass env t = ORaise TypeErr.
+  exists r amass mass env t, physical mass env t /\ activity_row_with true r amass mass env t = ORaise TypeErr.
 Proof.
   exists w2_row, 13%Z, 1%Q, (mkEnv 4000000000000000 0 0), (1 # 1000)%Q. split.
   - unfold physical; simpl. rewrite <- Q2R_0. repeat split; apply Qle_bool_R; reflexivity.
